@@ -178,20 +178,44 @@ def run(ctx):
     # failed designs may be collected in a local list first; the accounting rule below demands that they are published
     local_lists = {access_path(s_.targets[0]) for s_ in stmts_of(fn) if isinstance(s_, ast.Assign) and len(s_.targets) == 1
                    and isinstance(s_.targets[0], ast.Name) and isinstance(s_.value, ast.List) and not s_.value.elts}
+    # locals that hold the design's vector: `v = ind.vector` taken inside the attempt loop is the current vector of the
+    # attempt; taken before the loop it is the vector the call started with, stale once a failed attempt re-sampled
+    loop_stmts = {id(x) for x in stmts_of(jm.loop)} if jm.loop is not None else set()
+    vec_locals = {}
+    for s_ in stmts_of(fn):
+        if isinstance(s_, ast.Assign) and len(s_.targets) == 1 and isinstance(s_.targets[0], ast.Name) and access_path(s_.value) == ind + ".vector":
+            vec_locals.setdefault(s_.targets[0].id, []).append("loop" if id(s_) in loop_stmts else "before")
+    stale_use = None
+
+    def vec_arg(a):
+        """'current' / 'stale' / None for the argument a failed copy is built from"""
+        nonlocal stale_use
+        if access_path(a) == ind + ".vector":
+            return "current"
+        if isinstance(a, ast.Name) and a.id in vec_locals:
+            kinds = set(vec_locals[a.id])
+            if kinds == {"loop"}:
+                return "current"
+            if kinds == {"before"}:
+                stale_use = stale_use or a
+                return "stale"
+        return None
     # R2 per retry-handler path
     ok_r2 = True
     for h, hp in retry_handlers:
         for p in hp:
             new_fail, appended, resample, state_ev = None, None, None, []
             alias_append = None
+            stale_here = False
             for i, e in enumerate(p.events):
                 if e.kind != "stmt":
                     continue
                 s = e.node
                 if isinstance(s, ast.Assign) and len(s.targets) == 1 and isinstance(s.targets[0], ast.Name) and isinstance(s.value, ast.Call) \
                         and (access_path(s.value.func) or "").split(".")[-1].startswith("Individual") and s.value.args \
-                        and access_path(s.value.args[0]) == ind + ".vector":
+                        and vec_arg(s.value.args[0]) is not None:
                     new_fail = (i, s.targets[0].id)
+                    stale_here = stale_here or vec_arg(s.value.args[0]) == "stale"
                 for c in calls_in(s):
                     pth = access_path(c.func) or ""
                     if (pth.endswith(".problem.failed.append") or (pth.endswith(".append") and pth[:-7] in local_lists)) and c.args:
@@ -199,9 +223,10 @@ def run(ctx):
                         if isinstance(a, ast.Name) and new_fail and a.id == new_fail[1]:
                             appended = i
                         elif isinstance(a, ast.Call) and (access_path(a.func) or "").split(".")[-1].startswith("Individual") and a.args \
-                                and access_path(a.args[0]) == ind + ".vector":
+                                and vec_arg(a.args[0]) is not None:
                             appended = i
                             new_fail = (i, None)
+                            stale_here = stale_here or vec_arg(a.args[0]) == "stale"
                         elif access_path(a) == ind:
                             alias_append = s
                 if jm.is_vector_write(e):
@@ -215,7 +240,10 @@ def run(ctx):
                 if st:
                     state_ev.append(st)
             msg = None
-            if alias_append is not None and appended is None:
+            if stale_here and resample is not None:
+                msg = ("the failed copy is built from `%s`, bound to %s.vector before the attempt loop: after the first re-sample it is stale, so from the second "
+                       "failure on the failed list records the initial vector, not the vector that failed" % (stale_use.id if stale_use is not None else "?", ind))
+            elif alias_append is not None and appended is None:
                 msg = "the failing design object itself is appended to the failed list; its vector is then overwritten by the re-sample, so the failed vector is lost"
             elif appended is None:
                 msg = "no copy of the failing vector is appended to problem.failed"
